@@ -177,11 +177,6 @@ theorem norm_toBam (r : Record) : Bam.norm (toBam r) = toBam (norm r) := by
 
 /-! ### well-formedness for the BAM codec -/
 
-/-- **the named H hypothesis**: no `H` value holds a zero byte.  The library keeps the decoded bytes of an `H`
-value in memory and the BAM writer stores them NUL-terminated, so a zero byte cuts the value short when the
-record is read back (known finding, `bam_hex_nul_witness`). -/
-def HexNulFree (r : Record) : Prop := ∀ a ∈ r.aux, ∀ s, a.val = .hex s → (0 : UInt8) ∉ s
-
 /-- what the BAM format can hold of a record, beyond `Expressible`: 32-bit POS/PNEXT/TLEN, at most 65535 CIGAR
 operations, 32-bit array counts, a block size below 2^31, fewer than 2^31 references -/
 def BamRange (h : Header) (r : Record) : Prop :=
@@ -219,8 +214,9 @@ theorem flatMap_length_const {α} (f : α → List Byte) (w : Nat) (l : List α)
 theorem elemWidth_letter (ty : IntTy) : elemWidth (b8 ty.letter) = some (width ty) := by
   cases ty <;> rfl
 
-/-- the raw aux of an expressible field is one the BAM codec can hold, given the named H hypothesis -/
-theorem auxOK_auxRaw (a : Aux) (h : AuxOK a) (hc : AuxCountOK a) (hx : ∀ s, a.val = .hex s → (0 : UInt8) ∉ s) :
+/-- the raw aux of an expressible field is one the BAM codec can hold (an `H` value may hold any bytes: it is
+written as hex digits) -/
+theorem auxOK_auxRaw (a : Aux) (h : AuxOK a) (hc : AuxCountOK a) :
     auxOK (auxRaw a) = true := by
   obtain ⟨t0, t1, v⟩ := a
   obtain ⟨htag, hv⟩ := h
@@ -248,9 +244,7 @@ theorem auxOK_auxRaw (a : Aux) (h : AuxOK a) (hc : AuxCountOK a) (hx : ∀ s, a.
     have hs : (0 : UInt8) ∉ s := fun hm => ge_ne_zero 0 (hv 0 hm).1 rfl
     have := not_mem_map_b8 s hs
     simp [auxOK, this, Ne.symm (b8_ne_zero t0 ht0), Ne.symm (b8_ne_zero t1 ht1)]
-  | hex s =>
-    have := not_mem_map_b8 s (hx s rfl)
-    simp [auxOK, this, Ne.symm (b8_ne_zero t0 ht0), Ne.symm (b8_ne_zero t1 ht1)]
+  | hex s => simp [auxOK, b8_ne_zero t0 ht0, b8_ne_zero t1 ht1]
   | ints ty vs =>
     simp only at hc
     obtain ⟨l1, l2, l3, l4, l5, _⟩ := letter_facts ty
@@ -263,7 +257,7 @@ theorem auxOK_auxRaw (a : Aux) (h : AuxOK a) (hc : AuxCountOK a) (hx : ∀ s, a.
     simp [auxOK, putU32, elemWidth, count_roundtrip bs.length hc, this]
 
 /-- the memory form of an expressible record within the BAM ranges is well-formed for the BAM codec -/
-theorem wf_toBam (h : Header) (r : Record) (he : Expressible h r) (hb : BamRange h r) (hx : HexNulFree r) :
+theorem wf_toBam (h : Header) (r : Record) (he : Expressible h r) (hb : BamRange h r) :
     WF h.refs.length (toBam r) := by
   obtain ⟨hname, href, hmate, _, _, hqual, haux⟩ := he
   obtain ⟨hn, hp, hmp, htl, hcl, hcnt, hsize⟩ := hb
@@ -301,7 +295,7 @@ theorem wf_toBam (h : Header) (r : Record) (he : Expressible h r) (hb : BamRange
   · intro a ha
     simp only [toBam, List.mem_map] at ha
     obtain ⟨a0, ha0, rfl⟩ := ha
-    exact auxOK_auxRaw a0 (haux a0 ha0) (hcnt a0 ha0) (hx a0 ha0)
+    exact auxOK_auxRaw a0 (haux a0 ha0) (hcnt a0 ha0)
   · simpa [toBam, packCodes_length] using hsize
 
 end Hts.Model.SamBam
